@@ -495,8 +495,80 @@ def run_eigh(c, u):
     c.out['samples'] = [{'factorization': 'eigh', 'N': N, 'split_signatures_in_unit': u['sigs'][:5], 'D': DMENU[tier]}]
 
 
+def conv_f(Xs, Ys, d):
+    return sum(np.dot(Xs[i], Ys[d - i]) for i in range(d + 1))
+
+
+def run_large(c, u):
+    """matrices larger than anything the enumerations reach (a kernel may switch its formulation with the size): symmetric
+    17 x 17 and 24 x 24 with well separated eigenvalues, and a 10 x 8 / 8 x 10 svd (Jordan-Wielandt matrix of size 18);
+    defining equations in floating point with a tolerance relative to the majorant"""
+    rng = np.random.default_rng(77)
+    for N in (17, 24):
+        D, P = 3, 2
+        Q0, _ = np.linalg.qr(rng.normal(size=(N, N)))
+        data = np.zeros((D, P, N, N))
+        for p in range(P):
+            lam = np.arange(N) * 1.5 + 0.25 * p
+            data[0, p] = Q0.dot(np.diag(lam)).dot(Q0.T)
+            data[0, p] = 0.5 * (data[0, p] + data[0, p].T)
+        H = np.round(rng.uniform(-1, 1, size=(D - 1, P, N, N)) * 8) / 8.0
+        data[1:] = H + np.swapaxes(H, -1, -2)
+        c.out['evals'] += P
+        c.out['keys'] += ['eigh large|%d|%d' % (N, p) for p in range(P)]
+        case = {'fn': 'eigh', 'N': N, 'D': D, 'large': True}
+        try:
+            l, Q = algopy.eigh(UTPM(data.copy()))
+        except Exception as ex:
+            c.fail('C08|eigh|large|raises', case, {'error': str(ex)[:160]})
+            continue
+        for p in range(P):
+            As = [data[d, p] for d in range(D)]
+            Qs = [Q.data[d, p] for d in range(D)]
+            Ls = [np.diag(l.data[d, p]) for d in range(D)]
+            bad = None
+            for d in range(D):
+                r1 = np.abs(conv_f(As, Qs, d) - conv_f(Qs, Ls, d)).max()
+                r2 = np.abs(conv_f([q.T for q in Qs], Qs, d) - (np.eye(N) if d == 0 else 0)).max()
+                if r1 > 1e-8 * (1 + np.abs(data[:, p]).max()) * N or r2 > 1e-9 * N:
+                    bad = (d, float(r1), float(r2))
+                    break
+            if bad:
+                c.fail('C08|eigh|large N|AQ=QL or QtQ=I|first_bad_order=%d' % bad[0], dict(case, direction=p), {'residual_AQ_QL': bad[1], 'residual_QtQ': bad[2]})
+                break
+    for (M, N) in ((10, 8), (8, 10)):
+        if M > N:
+            continue            # the library refuses tall matrices explicitly (see section 10.2)
+        D, P = 3, 1
+        data = np.round(rng.uniform(-1, 1, size=(D, P, M, N)) * 8) / 8.0
+        data[0, 0, :, :M] += np.diag(np.arange(M) * 2.0 + 3.0)
+        c.out['evals'] += 1
+        c.out['keys'] += ['svd large|%d|%d' % (M, N)]
+        case = {'fn': 'svd', 'M': M, 'N': N, 'D': D, 'large': True}
+        try:
+            U, sv, V = algopy.svd(UTPM(data.copy()))
+        except Exception as ex:
+            c.fail('C08|svd|large|raises', case, {'error': str(ex)[:160]})
+            continue
+        Us = [U.data[d, 0] for d in range(D)]
+        Vs = [V.data[d, 0] for d in range(D)]
+        Ss = []
+        for d in range(D):
+            Sd = np.zeros((M, N))
+            Sd[:M, :M] = np.diag(sv.data[d, 0])
+            Ss.append(Sd)
+        for d in range(D):
+            US = [conv_f(Us, Ss, k) for k in range(D)]
+            r = np.abs(conv_f(US, [v.T for v in Vs], d) - data[d, 0]).max()
+            if r > 1e-7 * (1 + np.abs(data).max()) * N:
+                c.fail('C08|svd|large|USVt=A|first_bad_order=%d' % d, case, {'residual': float(r)})
+                break
+
+
 def run_eigh_generic(c, u):
     tier = u['tier']
+    if u.get('large', True):
+        run_large(c, u)
     for N in (1, 2, 3):
         bases = []
         for flat in itertools.product((-1, 0, 1), repeat=N * (N + 1) // 2):
